@@ -10,6 +10,15 @@ From Cao Require Import ListUtil Bits Stacks Vm VmProofs C04VmProofs C04VmProofs
   C04VmProofs6.
 Import ListNotations.
 
+(* the state of a result that is not an abort *)
+Definition res_st (r : sres) : option state :=
+  match r with SNext _ s' | SExit s' | SErr _ _ s' => Some s' | SStop _ _ => None end.
+
+Lemma res_st_push_next ip s v s' : res_st (push_next ip s v) = Some s' -> st_heap s' = st_heap s.
+Proof.
+  unfold push_next, spush. destruct (vs_push _ _) as [k []]; cbn [res_st]; intros H; inversion H; reflexivity.
+Qed.
+
 Definition same_tables (h h' : heap) : Prop :=
   forall a t, hget h' a = Some (OTable t) <-> hget h a = Some (OTable t).
 
@@ -45,40 +54,42 @@ Proof. unfold spush. destruct (vs_push _ _) as [k []]; intros H; inversion H; re
 Section TableOpcodes.
 Variable F : fops.
 
-(* SetProperty *)
-Theorem set_property_ranked : forall opc ip0 ip s ip' s' rk a,
-  i_33 F opc ip0 ip s = SNext ip' s' -> ranked (st_heap s) rk -> speek s 1 = VObj a ->
+(* SetProperty; the statements cover the error results too (the state a nested run hands back) *)
+Theorem set_property_ranked : forall opc ip0 ip s s' rk a,
+  res_st (i_33 F opc ip0 ip s) = Some s' -> ranked (st_heap s) rk -> speek s 1 = VObj a ->
   vdepth (st_heap s) rk (speek s 0) <= rk a -> vdepth (st_heap s) rk (speek s 2) <= rk a ->
   ranked (st_heap s') rk.
 Proof.
-  intros opc ip0 ip s ip' s' rk a H Hr Einst Hk Hv. unfold i_33 in H. cbv zeta in H.
+  intros opc ip0 ip s s' rk a H Hr Einst Hk Hv. unfold i_33 in H. cbv zeta in H.
   change (st_heap (spop_n s 3)) with (st_heap s) in H. rewrite Einst in H. cbn [get_table] in H.
-  destruct (hget (st_heap s) a) as [[t| | | | |]|] eqn:Ea; try discriminate.
-  destruct (tinsert _ t (speek s 0) (speek s 2)) as [t'|] eqn:Et; [|discriminate].
+  destruct (hget (st_heap s) a) as [[t| | | | |]|] eqn:Ea; cbn [res_st] in H; try discriminate H;
+    try (inversion H; subst; exact Hr).
+  destruct (tinsert _ t (speek s 0) (speek s 2)) as [t'|] eqn:Et; cbn [res_st] in H; [|discriminate].
   inversion H; subst. cbn [set_table set_heap st_heap spop_n set_stack].
   apply (ranked_set_table _ _ _ t t' Hr Ea). intros v Hm.
   destruct (tinsert_mentions _ _ _ _ _ Et v Hm) as [H1|[->| ->]]; [apply (Hr a t Ea); exact H1 | exact Hk | exact Hv].
 Qed.
 
-Corollary set_property_acyclic_scalars : forall opc ip0 ip s ip' s',
-  i_33 F opc ip0 ip s = SNext ip' s' -> heap_acyclic (st_heap s) ->
+Corollary set_property_acyclic_scalars : forall opc ip0 ip s s',
+  res_st (i_33 F opc ip0 ip s) = Some s' -> heap_acyclic (st_heap s) ->
   not_table (st_heap s) (speek s 0) -> not_table (st_heap s) (speek s 2) -> heap_acyclic (st_heap s').
 Proof.
-  intros opc ip0 ip s ip' s' H [rk Hr] Hk Hv. exists rk.
-  pose proof H as H0. unfold i_33 in H0. cbv zeta in H0. change (st_heap (spop_n s 3)) with (st_heap s) in H0.
-  destruct (speek s 1) as [| | |a] eqn:Einst; try discriminate.
-  apply (set_property_ranked opc ip0 ip s ip' s' rk a H Hr Einst); rewrite vdepth_not_table by assumption; lia.
+  intros opc ip0 ip s s' H [rk Hr] Hk Hv. exists rk.
+  destruct (speek s 1) as [| | |a] eqn:Einst;
+    try (unfold i_33 in H; cbv zeta in H; rewrite Einst in H; cbn [get_table res_st] in H; inversion H; subst; exact Hr).
+  apply (set_property_ranked opc ip0 ip s s' rk a H Hr Einst); rewrite vdepth_not_table by assumption; lia.
 Qed.
 
 (* AppendTable *)
-Theorem append_table_ranked : forall opc ip0 ip s ip' s' rk a,
-  i_40 F opc ip0 ip s = SNext ip' s' -> ranked (st_heap s) rk -> speek s 0 = VObj a ->
+Theorem append_table_ranked : forall opc ip0 ip s s' rk a,
+  res_st (i_40 F opc ip0 ip s) = Some s' -> ranked (st_heap s) rk -> speek s 0 = VObj a ->
   vdepth (st_heap s) rk (speek s 1) <= rk a -> ranked (st_heap s') rk.
 Proof.
-  intros opc ip0 ip s ip' s' rk a H Hr Einst Hv. unfold i_40 in H. cbv zeta in H.
+  intros opc ip0 ip s s' rk a H Hr Einst Hv. unfold i_40 in H. cbv zeta in H.
   change (st_heap (spop_n s 2)) with (st_heap s) in H. rewrite Einst in H. cbn [get_table] in H.
-  destruct (hget (st_heap s) a) as [[t| | | | |]|] eqn:Ea; try discriminate.
-  destruct (tappend _ t (speek s 1)) as [t'| |] eqn:Et; try discriminate.
+  destruct (hget (st_heap s) a) as [[t| | | | |]|] eqn:Ea; cbn [res_st] in H; try discriminate H;
+    try (inversion H; subst; exact Hr).
+  destruct (tappend _ t (speek s 1)) as [t'| |] eqn:Et; cbn [res_st] in H; try discriminate.
   inversion H; subst. cbn [set_table set_heap st_heap spop_n set_stack].
   apply (ranked_set_table _ _ _ t t' Hr Ea). intros v Hm.
   unfold tappend in Et. destruct (tappend_idx _ _ _ _) as [[i|]|]; try discriminate.
@@ -86,37 +97,39 @@ Proof.
   destruct (tinsert_mentions _ _ _ _ _ Et2 v Hm) as [H1|[->| ->]]; [apply (Hr a t Ea); exact H1 | cbn [vdepth]; lia | exact Hv].
 Qed.
 
-Corollary append_table_acyclic_scalar : forall opc ip0 ip s ip' s',
-  i_40 F opc ip0 ip s = SNext ip' s' -> heap_acyclic (st_heap s) ->
+Corollary append_table_acyclic_scalar : forall opc ip0 ip s s',
+  res_st (i_40 F opc ip0 ip s) = Some s' -> heap_acyclic (st_heap s) ->
   not_table (st_heap s) (speek s 1) -> heap_acyclic (st_heap s').
 Proof.
-  intros opc ip0 ip s ip' s' H [rk Hr] Hv. exists rk.
-  pose proof H as H0. unfold i_40 in H0. cbv zeta in H0. change (st_heap (spop_n s 2)) with (st_heap s) in H0.
-  destruct (speek s 0) as [| | |a] eqn:Einst; try discriminate.
-  apply (append_table_ranked opc ip0 ip s ip' s' rk a H Hr Einst). rewrite vdepth_not_table by assumption. lia.
+  intros opc ip0 ip s s' H [rk Hr] Hv. exists rk.
+  destruct (speek s 0) as [| | |a] eqn:Einst;
+    try (unfold i_40 in H; cbv zeta in H; rewrite Einst in H; cbn [get_table res_st] in H; inversion H; subst; exact Hr).
+  apply (append_table_ranked opc ip0 ip s s' rk a H Hr Einst). rewrite vdepth_not_table by assumption. lia.
 Qed.
 
 (* PopTable *)
-Theorem pop_table_ranked : forall opc ip0 ip s ip' s' rk,
-  i_41 F opc ip0 ip s = SNext ip' s' -> ranked (st_heap s) rk -> ranked (st_heap s') rk.
+Theorem pop_table_ranked : forall opc ip0 ip s s' rk,
+  res_st (i_41 F opc ip0 ip s) = Some s' -> ranked (st_heap s) rk -> ranked (st_heap s') rk.
 Proof.
-  intros opc ip0 ip s ip' s' rk H Hr. unfold i_41 in H.
+  intros opc ip0 ip s s' rk H Hr. unfold i_41 in H.
   destruct (spop_facts s) as (Hh & _). destruct (spop s) as [s1 inst]. cbn [fst] in Hh.
-  destruct inst as [| | |a]; try discriminate. cbn [get_table] in H. rewrite Hh in H.
-  destruct (hget (st_heap s) a) as [[t| | | | |]|] eqn:Ea; try discriminate.
-  destruct (tpop _ t) as [[t' v]|] eqn:Et; [|discriminate].
-  unfold push_next, spush in H. destruct (vs_push _ _) as [k []]; inversion H; subst.
+  assert (Hsame : forall e ip1, res_st (SErr e ip1 s1) = Some s' -> ranked (st_heap s') rk).
+  { intros e ip1 E. cbn [res_st] in E. inversion E; subst. rewrite Hh. exact Hr. }
+  destruct inst as [| | |a]; cbn [get_table] in H; try (eapply Hsame; exact H). rewrite Hh in H.
+  destruct (hget (st_heap s) a) as [[t| | | | |]|] eqn:Ea; try (eapply Hsame; exact H); [|cbn [res_st] in H; discriminate].
+  destruct (tpop _ t) as [[t' v]|] eqn:Et; [|cbn [res_st] in H; discriminate].
+  apply res_st_push_next in H. rewrite H.
   cbn [set_stack set_table set_heap st_heap]. rewrite Hh.
   apply (ranked_set_table _ _ _ t t' Hr Ea). intros w Hm.
   apply (Hr a t Ea). apply (proj1 (tpop_mentions _ _ _ _ Et)). exact Hm.
 Qed.
 
 (* InitTable *)
-Theorem init_table_acyclic : forall opc ip0 ip s ip' s',
-  i_31 opc ip0 ip s = SNext ip' s' -> heap_acyclic (st_heap s) -> heap_closed (st_heap s) -> heap_acyclic (st_heap s').
+Theorem init_table_acyclic : forall opc ip0 ip s s',
+  res_st (i_31 opc ip0 ip s) = Some s' -> heap_acyclic (st_heap s) -> heap_closed (st_heap s) -> heap_acyclic (st_heap s').
 Proof.
-  intros opc ip0 ip s ip' s' H Hac Hc. unfold i_31, salloc, halloc, push_next, spush in H.
-  destruct (vs_push _ _) as [k []]; inversion H; subst. cbn [set_stack set_heap st_heap].
+  intros opc ip0 ip s s' H Hac Hc. unfold i_31, salloc, halloc in H.
+  apply res_st_push_next in H. rewrite H. cbn [set_stack set_heap st_heap].
   apply heap_acyclic_alloc; [exact Hac | exact Hc |]. intros t E v. inversion E; subst. apply empty_mentions.
 Qed.
 
@@ -171,8 +184,9 @@ Proof.
 Qed.
 
 (* what NthRow does to the heap *)
-Lemma nth_row_heap : forall opc ip0 ip s ip' s',
-  i_39 F opc ip0 ip s = SNext ip' s' ->
+Lemma nth_row_heap : forall opc ip0 ip s s',
+  res_st (i_39 F opc ip0 ip s) = Some s' ->
+  st_heap s' = st_heap s \/
   exists a t key val t1 t2,
     hget (st_heap s) a = Some (OTable t) /\
     (key = VNil \/ tmentions t key) /\ (val = VNil \/ tmentions t val) /\
@@ -180,24 +194,26 @@ Lemma nth_row_heap : forall opc ip0 ip s ip' s',
     tinsert (veq0 F (row_heap (st_heap s))) t1 (VObj (N.of_nat (S (S (length (st_heap s)))))) val = Some t2 /\
     st_heap s' = hset (row_heap (st_heap s)) (N.of_nat (length (st_heap s))) (OTable t2).
 Proof.
-  intros opc ip0 ip s ip' s' H. unfold i_39 in H.
-  destruct (get_table (st_heap (spop_n s 2)) (speek s 1)) as [a t| |] eqn:Eg; try discriminate H.
+  intros opc ip0 ip s s' H. unfold i_39 in H.
+  assert (Hsame : forall e ip1, res_st (SErr e ip1 (spop_n s 2)) = Some s' -> st_heap s' = st_heap s).
+  { intros e ip1 E. cbn [res_st] in E. inversion E; subst. reflexivity. }
+  destruct (get_table (st_heap (spop_n s 2)) (speek s 1)) as [a t| |] eqn:Eg;
+    [|left; eapply Hsame; exact H|cbn [res_st] in H; discriminate H].
   apply get_table_some in Eg.
-  destruct (speek s 0) as [|i| |]; try discriminate H.
-  destruct (i <? 0)%Z; [discriminate H|].
+  destruct (speek s 0) as [|i| |]; try (left; eapply Hsame; exact H).
+  destruct (i <? 0)%Z; [left; eapply Hsame; exact H|].
   destruct (if (i <? Z.of_nat (length (tkeys t)))%Z
             then tget (veq0 F (st_heap (spop_n s 2))) t
                    (if (i <? Z.of_nat (length (tkeys t)))%Z then tnth_key t (Z.to_nat i) else VNil)
-            else Some None) as [r|] eqn:Er; [|discriminate H].
+            else Some None) as [r|] eqn:Er; [|cbn [res_st] in H; discriminate H].
   destruct (salloc (spop_n s 2) (OTable (mkTable [] []))) as [s3 row] eqn:E3.
   destruct (salloc s3 (OStr str_key)) as [s4 ka] eqn:E4.
   destruct (salloc s4 (OStr str_value)) as [s5 va] eqn:E5.
   unfold salloc, halloc in E3, E4, E5. inversion E3; subst s3 row; clear E3. inversion E4; subst s4 ka; clear E4.
   inversion E5; subst s5 va; clear E5. cbn [st_heap set_heap spop_n set_stack] in H, Er, Eg.
-  destruct (tinsert _ (mkTable [] []) _ _) as [t1|] eqn:T1; [|discriminate H].
-  destruct (tinsert _ t1 _ _) as [t2|] eqn:T2; [|discriminate H].
-  unfold push_next in H. destruct (spush _ _) as [s6|] eqn:E6; [|discriminate H].
-  apply spush_some_heap in E6. inversion H; subst s'; clear H.
+  destruct (tinsert _ (mkTable [] []) _ _) as [t1|] eqn:T1; [|cbn [res_st] in H; discriminate H].
+  destruct (tinsert _ t1 _ _) as [t2|] eqn:T2; [|cbn [res_st] in H; discriminate H].
+  apply res_st_push_next in H. right.
   exists a, t, (if (i <? Z.of_nat (length (tkeys t)))%Z then tnth_key t (Z.to_nat i) else VNil),
          (match r with Some v => v | None => VNil end), t1, t2.
   split; [exact Eg|]. split.
@@ -207,16 +223,16 @@ Proof.
     right. eapply tget_mentions; eauto. }
   repeat (rewrite app_length in T1; cbn [length] in T1; rewrite Nat.add_1_r in T1).
   repeat (rewrite app_length in T2; cbn [length] in T2; rewrite Nat.add_1_r in T2).
-  split; [exact T1|]. split; [exact T2|]. rewrite E6. reflexivity.
+  split; [exact T1|]. split; [exact T2|]. rewrite H. reflexivity.
 Qed.
 
-Theorem nth_row_acyclic : forall opc ip0 ip s ip' s',
-  i_39 F opc ip0 ip s = SNext ip' s' -> heap_acyclic (st_heap s) -> heap_closed (st_heap s) ->
+Theorem nth_row_acyclic : forall opc ip0 ip s s',
+  res_st (i_39 F opc ip0 ip s) = Some s' -> heap_acyclic (st_heap s) -> heap_closed (st_heap s) ->
   heap_acyclic (st_heap s').
 Proof.
-  intros opc ip0 ip s ip' s' H [rk Hr] Hc.
-  destruct (nth_row_heap _ _ _ _ _ _ H) as (a & t & key & val & t1 & t2 & Ea & Hk & Hv & T1 & T2 & ->).
-  exact (row_ranked _ _ rk a t key val t1 t2 Hr Hc Ea Hk Hv T1 T2).
+  intros opc ip0 ip s s' H Hac Hc.
+  destruct (nth_row_heap _ _ _ _ _ H) as [->|(a & t & key & val & t1 & t2 & Ea & Hk & Hv & T1 & T2 & ->)]; [exact Hac|].
+  destruct Hac as [rk Hr]. exact (row_ranked _ _ rk a t key val t1 t2 Hr Hc Ea Hk Hv T1 T2).
 Qed.
 
 End TableOpcodes.
